@@ -10,6 +10,8 @@ from __future__ import annotations
 
 import itertools
 
+import ast
+
 import numpy as np
 import sympy as sp
 
@@ -49,7 +51,46 @@ def run(tier):
     _b_linear(chk)
     _d_order_dedup(chk)
     _e_event(chk)
+    _e_engine_requests(chk)
     return chk
+
+
+def _e_engine_requests(chk):
+    """Every backend request the engine builds (the serial one and the per-worker ones) carries every detection setting of the
+    template request - offset, normal, direction, tolerances, interpolation - so that all trajectories are cut by the same
+    section whatever the worker count.  Sibling rule over the construction sites of SynodicBackendRequest."""
+    ENG = "hiten.algorithms.poincare.synodic.engine"
+    TYP = "hiten.algorithms.poincare.synodic.types"
+    tmod, tcls = ri.find_def(TYP, "SynodicBackendRequest")
+    fields = [st.target.id for st in tcls.body if isinstance(st, ast.AnnAssign) and isinstance(st.target, ast.Name)]
+    own = {"trajectories", "trajectory_indices", "metadata"}       # per-request data, not settings
+    settings = [f for f in fields if f not in own]
+    if len(settings) < 8:
+        raise AnalysisError(f"anchor: SynodicBackendRequest has only the setting fields {settings}")
+    emod = ri.need_module(ENG)
+    n = 0
+    for q, fn in ri.functions_in(emod):
+        for call in [c for c in ast.walk(fn) if isinstance(c, ast.Call) and ast.unparse(c.func).split(".")[-1] == "SynodicBackendRequest"]:
+            if ri.enclosing_function_name(call).split(".")[-1] != fn.name:
+                continue        # reported once, under the innermost function
+            n += 1
+            kws = {k.arg: k.value for k in call.keywords if k.arg}
+            src = None
+            bad = []
+            for f in settings:
+                v = kws.get(f)
+                if v is None:
+                    bad.append(f"{f} not passed (dataclass default used)")
+                    continue
+                if not (isinstance(v, ast.Attribute) and v.attr == f and isinstance(v.value, ast.Name)):
+                    bad.append(f"{f}={ast.unparse(v)}")
+                    continue
+                src = src or v.value.id
+                if v.value.id != src:
+                    bad.append(f"{f} taken from {v.value.id}, others from {src}")
+            chk.check(not bad, "C15.e", f"{ENG}::{q}[request #{n}]", f"a backend request does not carry the template's detection settings: {bad[:4]}",
+                      sample=f"{q}: all {len(settings)} settings copied from {src}")
+    chk.floor("backend request construction sites in the synodic engine", n, 2)
 
 
 # ------------------------------------------------------------------------------------------- c
